@@ -22,6 +22,15 @@ var serverPool = []string{
 	"10.0.0.1:11001", "10.0.0.11:11001", "x", "semadb-0.semadb:1100",
 }
 
+// longPool: names longer than any fixed-size buffer a routing shortcut might
+// use, differing only in their last characters or only early on.
+var longPool = []string{
+	"semadb-shard-node.internal.example.com:11001", "semadb-shard-node.internal.example.com:11002",
+	"semadb-shard-node.internal.example.com:11003", "semadb-shard-node.internal.example.com:11004",
+	"semadb-0.semadb-headless.production.svc.cluster.local:11001", "semadb-1.semadb-headless.production.svc.cluster.local:11001",
+	strings.Repeat("n", 64) + "1:9898", strings.Repeat("n", 64) + "2:9898",
+}
+
 type lcg struct{ s uint64 }
 
 func (l *lcg) next() uint64 {
@@ -70,6 +79,12 @@ func makeKeys(n int) []string {
 	for _, u := range []string{"alice", "alice1", "alice10", "bob", "semadb-0", "semadb-0.semadb", "localhost", "user/with", ".", "..", "üser", "abcdefghijkl"} {
 		add(u)
 	}
+	// long user ids sharing long prefixes (lengths around powers of two)
+	for _, l := range []int{31, 32, 33, 63, 64, 65, 100, 128, 129, 256, 1000} {
+		for _, c := range []string{"a", "b"} {
+			add(strings.Repeat("u", l-1) + c)
+		}
+	}
 	g := &lcg{s: 42}
 	for len(keys) < n {
 		a, b := g.next(), g.next()
@@ -84,6 +99,7 @@ type job struct {
 	Mask  uint32 `json:"mask"`
 	NKeys int    `json:"nkeys"`
 	Rot   int    `json:"rot"`
+	Pool  int    `json:"pool"` // 0 = serverPool, 1 = longPool
 }
 
 type viol struct {
@@ -100,11 +116,18 @@ type result struct {
 	Sample   any      `json:"sample"`
 }
 
-func subset(mask uint32) []string {
+func poolOf(p int) []string {
+	if p == 1 {
+		return longPool
+	}
+	return serverPool
+}
+
+func subset(p int, mask uint32) []string {
 	var s []string
-	for i := 0; i < len(serverPool); i++ {
+	for i, name := range poolOf(p) {
 		if mask&(1<<uint(i)) != 0 {
-			s = append(s, serverPool[i])
+			s = append(s, name)
 		}
 	}
 	return s
@@ -189,7 +212,7 @@ func worker(raw json.RawMessage) (json.RawMessage, error) {
 	}
 	switch j.Kind {
 	case "perm", "bigperm":
-		S := subset(j.Mask)
+		S := subset(j.Pool, j.Mask)
 		n := len(S)
 		sorted := append([]string{}, S...)
 		sort.Strings(sorted)
@@ -277,17 +300,17 @@ func worker(raw json.RawMessage) (json.RawMessage, error) {
 	case "disrupt":
 		// S = subset(mask); for every x not in S: adding x moves a key only to x;
 		// (removal of x from S∪{x} is the same statement read backwards)
-		S := subset(j.Mask)
+		S := subset(j.Pool, j.Mask)
 		sort.Strings(S)
 		ownerS := make([]string, len(keys))
 		for i, k := range keys {
 			ownerS[i] = cluster.RendezvousHash(k, S, 1)[0]
 		}
-		for xi := 0; xi < len(serverPool); xi++ {
+		for xi := 0; xi < len(poolOf(j.Pool)); xi++ {
 			if j.Mask&(1<<uint(xi)) != 0 {
 				continue
 			}
-			x := serverPool[xi]
+			x := poolOf(j.Pool)[xi]
 			// put x at every position: result must not depend on where it is
 			for pos := 0; pos <= len(S); pos += max(1, len(S)) {
 				T := append(append(append([]string{}, S[:pos]...), x), S[pos:]...)
@@ -318,8 +341,8 @@ func worker(raw json.RawMessage) (json.RawMessage, error) {
 }
 
 func master(cfg *harness.Config, rep *harness.Report) {
-	rep.Rule = "perm: every non-empty subset of the first 7 pool names x all |S|! orderings x all keys x topK in {1,|S|} must give the answer of the sorted ordering; bigperm: prefixes of the 16-name pool of size 8..16 x {sorted, reversed, rotations, adjacent transpositions}; disrupt: server sets (prefix chains of 16 rotations of the pool, all sets of size <=4 of the first 8 names) x every server not in the set added at front and back x all keys: owner changes only to the added server. non-trivial = orderings different from the sorted one / additions that moved at least one key"
-	rep.Assumptions = []string{"keys: all strings of length 1..4 over {a,b,1,:}, hand-picked user ids, deterministic uuid stream; not all strings", "xxhash itself is trusted only through the behaviour observed here"}
+	rep.Rule = "two name pools (16 short names as in the shipped configs; 8 long names of 44..70 characters that differ only in their last character or only early on). perm: every non-empty subset of the first 7 pool names x all |S|! orderings x all keys x topK in {1,|S|} must give the answer of the sorted ordering; bigperm: prefixes of the 16-name pool of size 8..16 x {sorted, reversed, rotations, adjacent transpositions}; disrupt: server sets (prefix chains of 16 rotations of the pool, all sets of size <=4 of the first 8 names) x every server not in the set added at front and back x all keys: owner changes only to the added server. non-trivial = orderings different from the sorted one / additions that moved at least one key"
+	rep.Assumptions = []string{"keys: all strings of length 1..4 over {a,b,1,:}, hand-picked user ids, long user ids (31..1000 characters, pairs differing in the last character), deterministic uuid stream; not all strings", "xxhash itself is trusted only through the behaviour observed here"}
 	var jobs []json.RawMessage
 	add := func(j job) {
 		b, _ := json.Marshal(j)
@@ -362,6 +385,20 @@ func master(cfg *harness.Config, rep *harness.Report) {
 			if bits.OnesCount32(m) <= 4 && !seen[m] {
 				seen[m] = true
 				add(job{Kind: "disrupt", Mask: m, NKeys: nk})
+			}
+		}
+		// the long-name pool: all subsets, all orderings (<= 6 names; sorted/reversed/rotations/transpositions above), single additions for sets of <= 4
+		for m := uint32(1); m < 1<<8; m++ {
+			switch c := bits.OnesCount32(m); {
+			case c <= 5:
+				add(job{Kind: "perm", Mask: m, NKeys: nk, Pool: 1})
+			case c == 6:
+				add(job{Kind: "perm", Mask: m, NKeys: permKeys, Pool: 1})
+			default:
+				add(job{Kind: "bigperm", Mask: m, NKeys: nk, Pool: 1})
+			}
+			if bits.OnesCount32(m) <= 4 {
+				add(job{Kind: "disrupt", Mask: m, NKeys: nk, Pool: 1})
 			}
 		}
 	}
